@@ -1,5 +1,6 @@
 (* Proofs for the USB enumeration part of C07 (props/C07.v, names C07_usb_...): descriptor parsing and the
    enumeration decision of device/src/u3v/device_builder.rs, model/UsbEnum.v against spec/UsbDescLayout.v. *)
+From Coq Require Import Sorted.
 From Cam Require Import Outcome Bytes UsbEnum UsbDescLayout.
 
 (* ---- generic helpers -------------------------------------------------------------------------------- *)
@@ -455,8 +456,8 @@ Proof.
     cbn [andb negb orb]; try (now eexists).
   destruct (a_eps (if_first i)) as [|e1 [|e2 [|e3 r]]]; cbn [length Nat.eqb negb]; try (now eexists).
   cbn [find]. rewrite !ep_in_out.
-  destruct (ep_is_out e1), (ep_is_out e2), (ep_is_bulk e1), (ep_is_bulk e2);
-    cbn [negb andb orb]; try reflexivity; now eexists.
+  destruct (ep_is_out e1), (ep_is_out e2); cbn [negb andb orb]; try (now eexists);
+    destruct (ep_is_bulk e1), (ep_is_bulk e2); cbn [negb andb orb]; try reflexivity; now eexists.
 Qed.
 
 (* ---- ReceiveIfaceInfo::new ---------------------------------------------------------------------------------- *)
@@ -555,50 +556,46 @@ Proof.
   exact (find_u3v_iad_from_spec di d (Z.to_nat (d_nconf d)) 0 ltac:(lia)).
 Qed.
 
+Definition spec_tail (d : dev) (x : iad) (c : conf) : option devres :=
+  match spec_interfaces x c with
+  | None => None
+  | Some (ctrl, others) =>
+    match spec_ctrl ctrl with
+    | None => None
+    | Some ci =>
+      if spec_info_valid (a_extra (if_first ctrl)) then
+        match spec_dinfo d (spec_info (a_extra (if_first ctrl))) with
+        | None => None
+        | Some info =>
+          match spec_classify (filter_map spec_recv others) with
+          | None => None
+          | Some (ev, st) => Some (mkDevres info ci ev st)
+          end
+        end
+      else None
+    end
+  end.
+
 Definition spec_build (d : dev) (x : iad) (c : conf) : option devres :=
   if (d_open d =? 0) && (d_getcfg_code d =? 0) &&
-     ((d_getcfg_val d mod 256 =? cf_value c) || (d_setcfg d =? 0)) then
-    match spec_interfaces x c with
-    | None => None
-    | Some (ctrl, others) =>
-      match spec_ctrl ctrl with
-      | None => None
-      | Some ci =>
-        if spec_info_valid (a_extra (if_first ctrl)) then
-          match spec_dinfo d (spec_info (a_extra (if_first ctrl))) with
-          | None => None
-          | Some info =>
-            match spec_classify (filter_map spec_recv others) with
-            | None => None
-            | Some (ev, st) => Some (mkDevres info ci ev st)
-            end
-          end
-        else None
-      end
-    end
-  else None.
+     ((d_getcfg_val d mod 256 =? cf_value c) || (d_setcfg d =? 0))
+  then spec_tail d x c else None.
 
-Lemma build_opened_spec di d x c :
-  ok_or_err (fst (build_opened di d x c))
-    (if (d_getcfg_code d =? 0) && ((d_getcfg_val d mod 256 =? cf_value c) || (d_setcfg d =? 0))
-     then spec_build (mkDev (d_dd_err d) (d_cls d) (d_sub d) (d_proto d) (d_nconf d) (d_confs d) 0
-                            0 (d_getcfg_val d) 0 (d_strs d)) x c
-     else None).
+Definition build_tail (di : Z) (d : dev) (x : iad) (c : conf) : lout devres :=
+  match skip_to (i_first x) (cf_ifaces c) with
+  | [] => lift (Err UE_INVALID_DEVICE)
+  | ctrl :: others =>
+    let! ci := lift (control_iface_info ctrl) in
+    let! idsc := lift (info_from_bytes (a_extra (if_first ctrl))) in
+    let! info := interpret di d idsc in
+    let! rs := lift (recv_infos others) in
+    let! es := lift (classify rs) in
+    lret (mkDevres info ci (fst es) (snd es))
+  end.
+
+Lemma build_tail_spec di d x c : ok_or_err (fst (build_tail di d x c)) (spec_tail d x c).
 Proof.
-  unfold build_opened, spec_build. cbn [d_open d_getcfg_code d_getcfg_val d_setcfg d_strs Z.eqb andb orb].
-  rewrite orb_true_r.
-  rewrite fst_lbind. unfold call at 1, try_code at 1. cbn [fst].
-  destruct (d_getcfg_code d =? 0); cbn [bind andb]; [|now eexists].
-  rewrite fst_lbind.
-  assert (E : fst (if negb (d_getcfg_val d mod 256 =? cf_value c)
-                   then call [5; di; cf_value c] (try_code (d_setcfg d)) else lret tt) =
-              if (d_getcfg_val d mod 256 =? cf_value c) || (d_setcfg d =? 0) then Ok tt
-              else Err (usb_kind (d_setcfg d))).
-  { destruct (d_getcfg_val d mod 256 =? cf_value c); cbn [negb orb]; [reflexivity|].
-    unfold call, try_code. cbn [fst]. destruct (d_setcfg d =? 0); reflexivity. }
-  rewrite E. clear E.
-  destruct ((d_getcfg_val d mod 256 =? cf_value c) || (d_setcfg d =? 0)); [|now eexists].
-  unfold spec_interfaces.
+  unfold build_tail, spec_tail, spec_interfaces.
   destruct (skip_to (i_first x) (cf_ifaces c)) as [|ctrl others]; [unfold lift; cbn [fst]; now eexists|].
   rewrite fst_lbind. unfold lift at 1. cbn [fst].
   pose proof (control_iface_info_spec ctrl) as HC. unfold ok_or_err in HC.
@@ -607,10 +604,6 @@ Proof.
   destruct (spec_info_valid (a_extra (if_first ctrl))); [|now eexists].
   rewrite fst_lbind.
   pose proof (interpret_spec di d (spec_info (a_extra (if_first ctrl)))) as HI. unfold ok_or_err in HI.
-  change (spec_dinfo {| d_dd_err := d_dd_err d; d_cls := d_cls d; d_sub := d_sub d; d_proto := d_proto d;
-                        d_nconf := d_nconf d; d_confs := d_confs d; d_open := 0; d_getcfg_code := 0;
-                        d_getcfg_val := d_getcfg_val d; d_setcfg := 0; d_strs := d_strs d |})
-    with (spec_dinfo d).
   destruct (spec_dinfo d (spec_info (a_extra (if_first ctrl)))) as [info|];
     [rewrite HI|destruct HI as [e ->]; now eexists].
   rewrite fst_lbind. unfold lift at 1. cbn [fst]. rewrite recv_infos_spec.
@@ -618,4 +611,320 @@ Proof.
   pose proof (classify_spec (filter_map spec_recv others)) as HK. unfold ok_or_err in HK.
   destruct (spec_classify (filter_map spec_recv others)) as [[ev st]|];
     [rewrite HK; reflexivity|destruct HK as [e ->]; now eexists].
+Qed.
+
+Lemma build_opened_spec di d x c :
+  ok_or_err (fst (build_opened di d x c))
+    (if (d_getcfg_code d =? 0) && ((d_getcfg_val d mod 256 =? cf_value c) || (d_setcfg d =? 0))
+     then spec_tail d x c else None).
+Proof.
+  unfold build_opened. fold (build_tail di d x c).
+  rewrite fst_lbind. unfold call at 1, try_code at 1. cbn [fst].
+  destruct (d_getcfg_code d =? 0); cbn [bind andb]; [|now eexists].
+  rewrite fst_lbind.
+  destruct (d_getcfg_val d mod 256 =? cf_value c); cbn [negb orb].
+  - unfold lret at 1. cbn [fst]. apply build_tail_spec.
+  - unfold call at 1, try_code at 1. cbn [fst].
+    destruct (d_setcfg d =? 0); [apply build_tail_spec|now eexists].
+Qed.
+
+Lemma build_spec di d x c : ok_or_err (fst (build di d x c)) (spec_build d x c).
+Proof.
+  unfold build, spec_build. rewrite fst_lbind. unfold call at 1, try_code at 1. cbn [fst].
+  destruct (d_open d =? 0); cbn [andb]; [|now eexists].
+  cbn [fst]. apply build_opened_spec.
+Qed.
+
+Lemma accept_spec_unfold d :
+  accept_spec d =
+  if candidate d then
+    match spec_pick_config (d_confs d) (Z.to_nat (d_nconf d)) 0 with
+    | Some (x, c) => spec_build d x c
+    | None => None
+    end
+  else None.
+Proof. reflexivity. Qed.
+
+(* one device of the list: never a panic, never an error; kept exactly when the closed form says so *)
+Lemma enum_device_spec di d : fst (enum_device iad_from_bytes di d) = Ok (accept_spec d).
+Proof.
+  rewrite accept_spec_unfold. unfold enum_device.
+  pose proof (builder_new_spec di d) as HN.
+  destruct (candidate d).
+  - destruct (spec_pick_config (d_confs d) (Z.to_nat (d_nconf d)) 0) as [[x c]|].
+    + rewrite HN. pose proof (build_spec di d x c) as HB. unfold ok_or_err in HB.
+      destruct (spec_build d x c); [rewrite HB; reflexivity|destruct HB as [e ->]; reflexivity].
+    + destruct HN as [-> | [e ->]]; reflexivity.
+  - destruct HN as [-> | [e ->]]; reflexivity.
+Qed.
+
+Lemma enum_from_spec : forall ds di, fst (enum_from iad_from_bytes di ds) = Ok (accepted_from di ds).
+Proof.
+  induction ds as [|d r IH]; intros di; cbn [enum_from accepted_from]; [reflexivity|].
+  rewrite fst_lbind, enum_device_spec, fst_lbind, IH. cbn [lret fst].
+  destruct (accept_spec d); reflexivity.
+Qed.
+
+Lemma enumerate_spec list_code ds :
+  fst (enumerate_devices list_code ds) =
+  if list_code <? 0 then Err (usb_kind list_code) else Ok (accepted_from 0 ds).
+Proof.
+  unfold enumerate_devices, enumerate_with. rewrite fst_lbind. unfold call. cbn [fst].
+  destruct (list_code <? 0); [reflexivity|]. apply enum_from_spec.
+Qed.
+
+Lemma enumerate_total list_code ds : fst (enumerate_devices list_code ds) <> Panic.
+Proof. rewrite enumerate_spec. destruct (list_code <? 0); discriminate. Qed.
+
+Lemma run_enum_never_panics list_code ds : run_enum list_code ds <> [2].
+Proof.
+  unfold run_enum, show_enum. rewrite enumerate_spec.
+  destruct (list_code <? 0); cbn [app]; discriminate.
+Qed.
+
+(* the kept devices are exactly the accepted ones, in list order, each under its own position; a device is kept
+   or not by its own descriptors and libusb answers alone *)
+Lemma accepted_from_in : forall ds di k r,
+  In (k, r) (accepted_from di ds) <->
+  exists j, k = di + Z.of_nat j /\ exists d, nth_error ds j = Some d /\ accept_spec d = Some r.
+Proof.
+  induction ds as [|d ds IH]; intros di k r; cbn [accepted_from].
+  - split; [intros []|intros [j [_ [d [H _]]]]; destruct j; discriminate].
+  - assert (IH' : In (k, r) (accepted_from (di + 1) ds) <->
+                  exists j, k = di + Z.of_nat (S j) /\ exists d0, nth_error ds j = Some d0 /\ accept_spec d0 = Some r).
+    { rewrite IH. split; intros [j [Hk Hd]]; exists j; (split; [lia|exact Hd]). }
+    destruct (accept_spec d) as [x|] eqn:EA.
+    + cbn [In]. rewrite IH'. split.
+      * intros [H|[j [Hk Hd]]].
+        -- injection H as <- <-. exists 0%nat. split; [lia|]. exists d. now split.
+        -- exists (S j). split; [exact Hk|exact Hd].
+      * intros [[|j] [Hk [d0 [Hn Ha]]]].
+        -- left. cbn [nth_error] in Hn. injection Hn as <-. rewrite EA in Ha. injection Ha as <-. f_equal. lia.
+        -- right. exists j. split; [exact Hk|]. exists d0. now split.
+    + rewrite IH'. split.
+      * intros [j [Hk Hd]]. exists (S j). split; [exact Hk|exact Hd].
+      * intros [[|j] [Hk [d0 [Hn Ha]]]].
+        -- cbn [nth_error] in Hn. injection Hn as <-. rewrite EA in Ha. discriminate.
+        -- exists j. split; [exact Hk|]. exists d0. now split.
+Qed.
+
+Lemma accepted_from_sorted : forall ds di, 
+  StronglySorted Z.lt (map fst (accepted_from di ds)) /\ Forall (fun p => di <= fst p) (accepted_from di ds).
+Proof.
+  induction ds as [|d ds IH]; intros di; cbn [accepted_from map]; [split; constructor|].
+  destruct (IH (di + 1)) as [HS HF].
+  assert (HF' : Forall (fun p => di <= fst p) (accepted_from (di + 1) ds)).
+  { eapply Forall_impl; [|exact HF]. cbn. intros; lia. }
+  destruct (accept_spec d); [|split; assumption].
+  cbn [map fst]. split.
+  - constructor; [exact HS|]. rewrite Forall_map. eapply Forall_impl; [|exact HF]. cbn. intros; lia.
+  - constructor; [cbn; lia|exact HF'].
+Qed.
+
+Lemma accepted_from_app : forall a b di,
+  accepted_from di (a ++ b) = accepted_from di a ++ accepted_from (di + Z.of_nat (length a)) b.
+Proof.
+  induction a as [|d a IH]; intros b di; cbn [app accepted_from length].
+  - now rewrite Z.add_0_r.
+  - rewrite IH. replace (di + 1 + Z.of_nat (length a)) with (di + Z.of_nat (S (length a))) by lia.
+    destruct (accept_spec d); reflexivity.
+Qed.
+
+(* ---- the libusb calls --------------------------------------------------------------------------------------- *)
+(* a device that is not a candidate (descriptor unreadable or not class EF/02/01) is asked for its device
+   descriptor and nothing else: never opened, its configuration never read *)
+Lemma non_candidate_untouched di d : candidate d = false ->
+  enum_device iad_from_bytes di d = (Ok None, [1; di]).
+Proof.
+  unfold candidate, enum_device, builder_new, lbind, call, try_code. cbn [fst snd].
+  destruct (d_dd_err d =? 0); cbn [andb fst snd app]; [|reflexivity].
+  intros ->. reflexivity.
+Qed.
+
+(* build: one open; when it succeeds the handle is closed after everything else, on every way out *)
+Lemma build_log di d x c :
+  snd (build di d x c) =
+  [3; di] ++ (if d_open d =? 0 then snd (build_opened di d x c) ++ [7; di] else []).
+Proof.
+  unfold build. rewrite snd_lbind. unfold call, try_code. cbn [fst snd].
+  destruct (d_open d =? 0); cbn [snd]; [reflexivity|now rewrite app_nil_r].
+Qed.
+
+(* failing get_device_list: nothing else is called *)
+Lemma enumerate_list_error list_code ds : list_code < 0 ->
+  enumerate_devices list_code ds = (Err (usb_kind list_code), [13]).
+Proof.
+  intros H. unfold enumerate_devices, enumerate_with, lbind, call. cbn [fst snd].
+  apply Z.ltb_lt in H. rewrite H. reflexivity.
+Qed.
+
+(* ---- what an accepted device looks like ------------------------------------------------------------------------ *)
+Lemma spec_ctrl_directions i n a b : spec_ctrl i = Some (n, a, b) ->
+  n = a_num (if_first i) /\ Z.land a 0x80 <> 0 /\ Z.land b 0x80 = 0.
+Proof.
+  unfold spec_ctrl.
+  destruct ((a_cls (if_first i) =? 239) && (a_sub (if_first i) =? 5) && (a_proto (if_first i) =? 0)); [|discriminate].
+  destruct (a_eps (if_first i)) as [|e1 [|e2 [|e3 r]]]; try discriminate.
+  destruct (ep_is_in e1 && ep_is_out e2 && ep_is_bulk e1 && ep_is_bulk e2) eqn:E1.
+  - intros H. injection H as <- <- <-. apply andb_prop in E1 as [E1 _]. apply andb_prop in E1 as [E1 _].
+    apply andb_prop in E1 as [Ei Eo]. unfold ep_is_in, ep_is_out in *.
+    apply negb_true_iff, Z.eqb_neq in Ei. apply Z.eqb_eq in Eo. auto.
+  - destruct (ep_is_out e1 && ep_is_in e2 && ep_is_bulk e1 && ep_is_bulk e2) eqn:E2; [|discriminate].
+    intros H. injection H as <- <- <-. apply andb_prop in E2 as [E2 _]. apply andb_prop in E2 as [E2 _].
+    apply andb_prop in E2 as [Eo Ei]. unfold ep_is_in, ep_is_out in *.
+    apply negb_true_iff, Z.eqb_neq in Ei. apply Z.eqb_eq in Eo. auto.
+Qed.
+
+Lemma spec_recv_direction i n a k : spec_recv i = Some ((n, a), k) ->
+  n = a_num (if_first i) /\ Z.land a 0x80 <> 0.
+Proof.
+  unfold spec_recv. destruct (find (fun a0 => a_setting a0 =? 0) (if_alts i)) as [al|]; [|discriminate].
+  destruct ((a_cls al =? 239) && (a_sub al =? 5)); [|discriminate].
+  destruct (a_eps al) as [|e [|e2 r]]; try discriminate.
+  destruct (ep_is_bulk e && ep_is_in e) eqn:E; [|discriminate].
+  apply andb_prop in E as [_ Ei]. unfold ep_is_in in Ei. apply negb_true_iff, Z.eqb_neq in Ei.
+  destruct (a_proto al =? 1); [intros H; injection H as <- <- <-; auto|].
+  destruct (a_proto al =? 2); [intros H; injection H as <- <- <-; auto|discriminate].
+Qed.
+
+Lemma filter_map_in {A B} (f : A -> option B) xs y : In y (filter_map f xs) -> exists x, In x xs /\ f x = Some y.
+Proof.
+  induction xs as [|x xs IH]; cbn [filter_map]; [intros []|].
+  destruct (f x) eqn:E.
+  - intros [<-|H]; [exists x; split; [now left|exact E]|].
+    destruct (IH H) as [x' [Hi Hf]]. exists x'. split; [now right|exact Hf].
+  - intros H. destruct (IH H) as [x' [Hi Hf]]. exists x'. split; [now right|exact Hf].
+Qed.
+
+Lemma spec_classify_members rs ev st : spec_classify rs = Some (ev, st) ->
+  (forall x, ev = Some x -> In (x, REvent) rs) /\ (forall x, st = Some x -> In (x, RStream) rs) /\
+  (ev = None -> forall x, ~ In (x, REvent) rs) /\ (st = None -> forall x, ~ In (x, RStream) rs) /\
+  (length rs <= 2)%nat.
+Proof.
+  unfold spec_classify.
+  destruct rs as [|[x [|]] [|[y [|]] [|z r]]]; try discriminate; intros H; injection H as <- <-;
+    repeat split; cbn [In length]; try lia; try (intros ? H; injection H as <-; auto); try discriminate;
+    try (intros _ ? [H|[H|[]]]; discriminate); try (intros _ ? [H|[]]; discriminate); try (intros _ ? []).
+Qed.
+
+(* everything an accepted device's record says, in terms of its descriptor tree *)
+Lemma accepted_shape d r : accept_spec d = Some r ->
+  candidate d = true /\
+  exists x c ctrl others,
+    spec_pick_config (d_confs d) (Z.to_nat (d_nconf d)) 0 = Some (x, c) /\ is_u3v_iad x = true /\
+    d_open d = 0 /\ d_getcfg_code d = 0 /\ (d_getcfg_val d mod 256 = cf_value c \/ d_setcfg d = 0) /\
+    skip_to (i_first x) (cf_ifaces c) = ctrl :: others /\
+    spec_ctrl ctrl = Some (r_ctrl r) /\
+    spec_info_valid (a_extra (if_first ctrl)) = true /\
+    spec_dinfo d (spec_info (a_extra (if_first ctrl))) = Some (r_info r) /\
+    spec_classify (filter_map spec_recv others) = Some (r_event r, r_stream r).
+Proof.
+  rewrite accept_spec_unfold. intros H. destruct (candidate d); [|discriminate]. split; [reflexivity|].
+  destruct (spec_pick_config (d_confs d) (Z.to_nat (d_nconf d)) 0) as [[x c]|] eqn:EP; [|discriminate].
+  unfold spec_build in H.
+  destruct (d_open d =? 0) eqn:E1; cbn [andb] in H; [|discriminate].
+  destruct (d_getcfg_code d =? 0) eqn:E2; cbn [andb] in H; [|discriminate].
+  destruct ((d_getcfg_val d mod 256 =? cf_value c) || (d_setcfg d =? 0)) eqn:E3; [|discriminate].
+  unfold spec_tail, spec_interfaces in H.
+  destruct (skip_to (i_first x) (cf_ifaces c)) as [|ctrl others] eqn:ES; [discriminate|].
+  destruct (spec_ctrl ctrl) as [ci|] eqn:EC; [|discriminate].
+  destruct (spec_info_valid (a_extra (if_first ctrl))) eqn:EV; [|discriminate].
+  destruct (spec_dinfo d (spec_info (a_extra (if_first ctrl)))) as [info|] eqn:EI; [|discriminate].
+  destruct (spec_classify (filter_map spec_recv others)) as [[ev st]|] eqn:EK; [|discriminate].
+  injection H as <-. cbn [r_ctrl r_info r_event r_stream].
+  exists x, c, ctrl, others. repeat split; auto.
+  - (* the IAD that was picked is a U3V one *)
+    clear - EP. revert EP. generalize 0%nat. induction (Z.to_nat (d_nconf d)) as [|k IH]; intros i; cbn [spec_pick_config]; [discriminate|].
+    destruct (nth_error (d_confs d) i) as [c0|]; [|discriminate]. destruct (cf_err c0 =? 0); [|discriminate].
+    destruct (spec_find_config c0) as [x0|] eqn:EF; [|apply IH].
+    intros H. injection H as <- <-. unfold spec_find_config in EF.
+    destruct (filter_map spec_u3v_of (extras_in_order c0)) as [|i0 l] eqn:EL; [discriminate|]. injection EF as <-.
+    assert (Hin : In i0 (filter_map spec_u3v_of (extras_in_order c0))) by (rewrite EL; now left).
+    destruct (filter_map_in _ _ _ Hin) as [y [_ Hy]]. unfold spec_u3v_of in Hy.
+    destruct (spec_iad_of y) as [i1|]; [|discriminate]. destruct (is_u3v_iad i1) eqn:EU; [|discriminate].
+    now injection Hy as <-.
+  - now apply Z.eqb_eq.
+  - now apply Z.eqb_eq.
+  - apply orb_prop in E3 as [E3|E3]; apply Z.eqb_eq in E3; auto.
+Qed.
+
+Lemma accepted_endpoints d r : accept_spec d = Some r ->
+  (let '(n, a, b) := r_ctrl r in Z.land a 0x80 <> 0 /\ Z.land b 0x80 = 0) /\
+  (forall n a, r_event r = Some (n, a) -> Z.land a 0x80 <> 0) /\
+  (forall n a, r_stream r = Some (n, a) -> Z.land a 0x80 <> 0).
+Proof.
+  intros H. destruct (accepted_shape d r H) as [_ (x & c & ctrl & others & _ & _ & _ & _ & _ & _ & HC & _ & _ & HK)].
+  destruct (r_ctrl r) as [[n a] b]. split; [apply (spec_ctrl_directions _ _ _ _ HC)|].
+  destruct (spec_classify_members _ _ _ HK) as (HE & HS & _).
+  split; intros n' a' Hr.
+  - destruct (filter_map_in _ _ _ (HE _ Hr)) as [i [_ Hi]]. apply (spec_recv_direction _ _ _ _ Hi).
+  - destruct (filter_map_in _ _ _ (HS _ Hr)) as [i [_ Hi]]. apply (spec_recv_direction _ _ _ _ Hi).
+Qed.
+
+(* optional strings: absent iff the index is 0; the speed is the highest set bit of the mask *)
+Lemma spec_dinfo_fields d x info : spec_dinfo d x = Some info ->
+  di_gencp info = (id_gencp_major x, id_gencp_minor x) /\ di_u3v info = (id_u3v_major x, id_u3v_minor x) /\
+  spec_string d (id_guid x) = Some (di_guid info) /\ spec_string d (id_vendor x) = Some (di_vendor info) /\
+  spec_string d (id_model x) = Some (di_model info) /\ spec_string d (id_version x) = Some (di_version info) /\
+  spec_string d (id_manufacturer x) = Some (di_manufacturer info) /\ spec_string d (id_serial x) = Some (di_serial info) /\
+  (di_family info = None <-> id_family x = 0) /\ (di_user info = None <-> id_user x = 0) /\
+  (forall s, di_family info = Some s -> spec_string d (id_family x) = Some s) /\
+  (forall s, di_user info = Some s -> spec_string d (id_user x) = Some s) /\
+  spec_speed (id_speed x) = Some (di_speed info).
+Proof.
+  unfold spec_dinfo.
+  destruct (spec_string d (id_guid x)) as [s1|]; [|discriminate].
+  destruct (spec_string d (id_vendor x)) as [s2|]; [|discriminate].
+  destruct (spec_string d (id_model x)) as [s3|]; [|discriminate].
+  destruct (spec_opt_string d (id_family x)) as [s4|] eqn:E4; [|discriminate].
+  destruct (spec_string d (id_version x)) as [s5|]; [|discriminate].
+  destruct (spec_string d (id_manufacturer x)) as [s6|]; [|discriminate].
+  destruct (spec_string d (id_serial x)) as [s7|]; [|discriminate].
+  destruct (spec_opt_string d (id_user x)) as [s8|] eqn:E8; [|discriminate].
+  destruct (spec_speed (id_speed x)) as [sp|]; [|discriminate].
+  intros H. injection H as <-. cbn [di_gencp di_u3v di_guid di_vendor di_model di_family di_version di_manufacturer
+                                   di_serial di_user di_speed].
+  assert (OPT : forall i o, spec_opt_string d i = Some o ->
+                (o = None <-> i = 0) /\ (forall s, o = Some s -> spec_string d i = Some s)).
+  { intros i o. unfold spec_opt_string. destruct (i =? 0) eqn:E0.
+    - intros H. injection H as <-. apply Z.eqb_eq in E0. split; [tauto|discriminate].
+    - apply Z.eqb_neq in E0. destruct (spec_string d i) as [s|]; [|discriminate].
+      intros H. injection H as <-. split; [split; [discriminate|tauto]|]. intros s0 H. now injection H as <-. }
+  destruct (OPT _ _ E4) as [F1 F2]. destruct (OPT _ _ E8) as [U1 U2].
+  repeat split; auto; try apply F1; try apply U1.
+Qed.
+
+(* ---- concrete devices (non-vacuity, and the pinned defect end to end) ---------------------------------------- *)
+Definition ex_info : list Z := [20; 36; 1; 2; 0; 1; 0; 0; 0; 1; 0; 1; 2; 3; 0; 5; 6; 7; 8; 12].
+Definition ex_strs : list (Z * sres) :=
+  [(1, SBytes [71; 85]); (2, SBytes [86]); (3, SBytes [77]); (5, SBytes [49]); (6, SBytes []); (7, SBytes [83; 78]);
+   (8, SBytes [117])].
+Definition ex_camera (cextra : list Z) : dev :=
+  mkDev 0 239 2 1 1
+    [mkConf 0 1 cextra
+       [mkIf (mkAlt 0 0 239 5 0 ex_info [mkEp 129 2 []; mkEp 1 2 []]) [];
+        mkIf (mkAlt 1 0 239 5 1 [] [mkEp 130 2 []]) [];
+        mkIf (mkAlt 2 0 239 5 2 [] [mkEp 131 2 [6; 48; 0; 0; 0; 0]]) [mkAlt 2 1 239 5 2 [] [mkEp 131 2 []]]]]
+    0 0 1 0 ex_strs.
+Definition ex_good : dev := ex_camera [8; 11; 0; 3; 239; 5; 0; 0].
+Definition ex_cut : dev := ex_camera [3; 48; 0; 8; 11; 0; 3; 239].     (* the IAD is cut after four bytes *)
+Definition ex_hub : dev := mkDev 0 9 0 3 1 [] 0 0 1 0 [].
+
+Lemma example_camera :
+  accept_spec ex_good =
+    Some (mkDevres (mkDinfo (1, 2) (1, 0) [71; 85] [86] [77] None [49] [] [83; 78] (Some [117]) 3)
+                   (0, 129, 1) (Some (1, 130)) (Some (2, 131))) /\
+  accept_spec ex_cut = None /\ accept_spec ex_hub = None.
+Proof. repeat split; vm_compute; reflexivity. Qed.
+
+(* the pinned code: one device whose configuration's extra bytes end inside an IAD makes enumerate_devices
+   panic and thereby hides the two healthy cameras next to it; the repaired code reports exactly those two *)
+Lemma enumerate_v0_refuted :
+  fst (enumerate_devices_v0 3 [ex_good; ex_cut; ex_good]) = Panic /\
+  run_enum_v0 3 [ex_good; ex_cut; ex_good] = [2] /\
+  map fst (accepted_from 0 [ex_good; ex_cut; ex_good]) = [0; 2] /\
+  exists l, fst (enumerate_devices 3 [ex_good; ex_cut; ex_good]) = Ok l /\ map fst l = [0; 2].
+Proof.
+  repeat split; try (vm_compute; reflexivity).
+  eexists. split; [rewrite enumerate_spec; reflexivity|vm_compute; reflexivity].
 Qed.
